@@ -116,15 +116,24 @@ impl TimeDelta {
     /// assert_eq!(td.inner, chrono::Duration::seconds(3 * 86400 + 4 * 3600 + 5 * 60 + 6));
     /// ```
     pub fn parse(duration: &str) -> TResult<Self> {
-        let mut nsecs = 0;
-        let mut secs = 0;
-        let mut months = 0;
+        // acc + n * scale, or a parse error when the duration does not fit
+        fn add(acc: i64, n: i64, scale: i64, s: &str) -> TResult<i64> {
+            n.checked_mul(scale)
+                .and_then(|v| acc.checked_add(v))
+                .ok_or_else(|| tea_error::terr!(ParseError:"duration out of range: {}", s))
+        }
+        let mut nsecs: i64 = 0;
+        let mut secs: i64 = 0;
+        let mut months: i64 = 0;
         let mut iter = duration.char_indices();
         let mut start = 0;
         let mut unit = String::with_capacity(2);
         while let Some((i, mut ch)) = iter.next() {
             if !ch.is_ascii_digit() && i != 0 {
-                let n = duration[start..i].parse::<i64>().unwrap();
+                let n = match duration[start..i].parse::<i64>() {
+                    Ok(n) => n,
+                    Err(_) => tbail!(ParseError:"expected an integer before the unit: {}", duration),
+                };
                 loop {
                     if ch.is_ascii_alphabetic() {
                         unit.push(ch)
@@ -144,26 +153,32 @@ impl TimeDelta {
                 tensure!(!unit.is_empty(), ParseError:"expected a unit in the duration string");
 
                 match unit.as_str() {
-                    "ns" => nsecs += n,
-                    "us" => nsecs += n * NANOS_PER_MICRO,
-                    "ms" => nsecs += n * NANOS_PER_MILLI,
-                    "s" => secs += n,
-                    "m" => secs += n * SECS_PER_MINUTE,
-                    "h" => secs += n * SECS_PER_HOUR,
-                    "d" => secs += n * SECS_PER_DAY,
-                    "w" => secs += n * SECS_PER_WEEK,
-                    "mo" => months += n as i32,
-                    "y" => months += n as i32 * 12,
+                    "ns" => nsecs = add(nsecs, n, 1, duration)?,
+                    "us" => nsecs = add(nsecs, n, NANOS_PER_MICRO, duration)?,
+                    "ms" => nsecs = add(nsecs, n, NANOS_PER_MILLI, duration)?,
+                    "s" => secs = add(secs, n, 1, duration)?,
+                    "m" => secs = add(secs, n, SECS_PER_MINUTE, duration)?,
+                    "h" => secs = add(secs, n, SECS_PER_HOUR, duration)?,
+                    "d" => secs = add(secs, n, SECS_PER_DAY, duration)?,
+                    "w" => secs = add(secs, n, SECS_PER_WEEK, duration)?,
+                    "mo" => months = add(months, n, 1, duration)?,
+                    "y" => months = add(months, n, 12, duration)?,
                     unit => tbail!(ParseError:"unit: '{}' not supported", unit),
                 }
                 unit.clear();
             }
         }
-        let duration = Duration::seconds(secs) + Duration::nanoseconds(nsecs);
-        Ok(TimeDelta {
-            months,
-            inner: duration,
-        })
+        // i32::MIN months is the NaT sentinel, not a duration
+        let months = match i32::try_from(months) {
+            Ok(m) if m != i32::MIN => m,
+            _ => tbail!(ParseError:"duration out of range: {}", duration),
+        };
+        let inner = Duration::try_seconds(secs)
+            .and_then(|d| d.checked_add(&Duration::nanoseconds(nsecs)));
+        match inner {
+            Some(inner) => Ok(TimeDelta { months, inner }),
+            None => tbail!(ParseError:"duration out of range: {}", duration),
+        }
     }
 
     #[inline(always)]
